@@ -315,16 +315,16 @@ func Eval(c Case) (*core.Fail, bool) {
 
 func Run(ctx *core.Ctx) int {
 	ctx.Level = "fault_enumeration"
-	ctx.Parallel = 32
+	ctx.Parallel = 64 // the cases mostly sleep in the retry back-off
 	defer sysrun.CleanupAll()
 	if ctx.Replay != "" {
 		return core.RunReplay(ctx, Eval)
 	}
 	kinds := []string{PRE, OVERLOAD, MID, POST}
-	maxFaults := 2
+	maxFaults := 3 // the bound the property names; the retry loop counts attempts per job, so three on one job matter
 	progsList := []string{"storemap", "twostages"}
 	if ctx.Thorough() {
-		maxFaults = 3
+		maxFaults = 4
 	}
 	st := core.ParallelEnum(ctx, func(emit func(Case) bool) {
 		for _, prog := range progsList {
